@@ -29,6 +29,7 @@ id="$name.$$"
   echo "args=$*"
   echo -n "listing="; ls -A "$COND_OUT" 2>/dev/null | grep -v -e '^stdout.log$' -e '^stderr.log$' | tr '\n' ','; echo
 } > "$ctl/$id.start"
+env -0 > "$ctl/$id.env" 2>/dev/null
 n=$(ls "$ctl" | grep -c "^$name\..*\.start$")
 echo "payload $name run $n $*" > "$COND_OUT/payload.txt"
 mkdir -p "$COND_OUT/sub/deep"
@@ -182,6 +183,22 @@ def run_command(root, argv, cwd="", clock=None, crash_at=None, count=False, env=
             break
         time.sleep(0.01)
     return res
+
+
+def task_environment(root):
+    """What a task process of this project finds in its environment beyond what `cond` itself was started with (the
+    variables Conductor exports to tasks, whatever they are called), from the newest agent record."""
+    ctl = os.path.join(root, ".ctl")
+    envs = sorted((f for f in os.listdir(ctl) if f.endswith(".env")), key=lambda f: os.path.getmtime(os.path.join(ctl, f)))
+    if not envs:
+        return {}
+    out = {}
+    for item in open(os.path.join(ctl, envs[-1]), "rb").read().split(b"\0"):
+        k, sep, v = item.decode("utf-8", "replace").partition("=")
+        if not sep or k in ("PWD", "OLDPWD", "SHLVL", "_", "CV_CTL") or os.environ.get(k) == v:
+            continue
+        out[k] = v
+    return out
 
 
 def read_spawns(root, since):
